@@ -300,6 +300,41 @@ def run(rep: vk.Report):
             for j, vn in enumerate(V):
                 nums.append(f"({te}, {ser.s(vn)}, {common.pts_term(pt)}, {common.pts_term(ppts)}, [{ser.q(sign * float(jac[j]))}])")
                 nmeta.append({"what": f"jac[{vn}]", "constraint": repr(c)[:300], "point": pt, "sense": sense, "jac": float(jac[j])})
+    # ---- right-hand sides as users hold them (Python numbers, NumPy scalars of every width, 0-d arrays), probed at points whose
+    # distance from the bound is far below single precision: the relation is evaluated in double precision whatever the rhs type
+    from optyx import Variable as _Vr
+    rhs_probe = rhs_bad = 0
+    xr = _Vr("xr")
+    yr = _Vr("yr")
+    for (rk, rv), sense, refl, two in itertools.product(
+            [("float", 1000.0), ("int", 1000), ("np.float64", np.float64(1000)), ("np.float32", np.float32(1000)), ("np.float16", np.float16(100)),
+             ("np.int64", np.int64(1000)), ("np.int32", np.int32(1000)), ("0-d float32 array", np.array(1000, dtype=np.float32)),
+             ("0-d int array", np.array(1000))], ["<=", ">=", "=="], [False, True], [False, True]):
+        lhs_e = xr + yr if two else xr
+        try:
+            c = apply_sense(rv, {"<=": ">=", ">=": "<=", "==": "=="}[sense], lhs_e) if refl else apply_sense(lhs_e, sense, rv)
+        except Exception:
+            continue
+        if not hasattr(c, "violation"):
+            continue                      # the recorded 0-d-array-on-the-left finding (K5) lives in the operand product above
+        bound = float(rv)
+        for dlt in (1e-5, -1e-5, 3e-7, -2e-9, 0.0, 0.25):
+            pt = {"xr": bound + dlt - (0.5 if two else 0.0), "yr": 0.5}
+            lv = (pt["xr"] + pt["yr"]) if two else pt["xr"]
+            diff = lv - bound
+            want_v = max(0.0, diff) if sense == "<=" else max(0.0, -diff) if sense == ">=" else abs(diff)
+            rhs_probe += 1
+            try:
+                got_v, got_s = float(c.violation(pt)), bool(c.is_satisfied(pt, tol=1e-8))
+            except Exception as ex:
+                got_v, got_s = float("nan"), None
+            if not (abs(got_v - want_v) <= 1e-12 * (1 + abs(want_v))) or got_s != (want_v <= 1e-8):
+                rhs_bad += 1
+                if rhs_bad <= 8:
+                    rep.violation({"kind": "exact", "obligation": "violation / is_satisfied of `lhs (sense) rhs` are those of the relation written, in double precision, whatever number type the rhs has",
+                                   "witness": {"rhs_type": rk, "rhs": bound, "sense": sense, "rhs_written_on_the_left": refl,
+                                               "lhs": "xr + yr" if two else "xr", "point": pt, "violation": got_v, "expected_violation": want_v,
+                                               "is_satisfied": got_s}}, concrete=True)
     num_checker = ("fun c => match c with (e, v, pts, ppts, obs) => "
                    "worst (map (num_check (if String.eqb v \"\" then e else grad ln2c ln10c v e) pts ppts) obs) end")
     nfails, nund = common.run_classify(IMPORTS + " SemI HarnessI", "", "expr * string * list (string * Q) * list (string * Q) * list Q",
@@ -317,6 +352,8 @@ def run(rep: vk.Report):
     cov["samples"] = [builds.terms[5][:400], scalars.terms[3][:400]] + [n[:300] for n in nums[:1]]
     cov["operand_kind_histogram"] = kinds_hist
     cov["matrix_cases"] = mat_cases
+    cov["rhs_number_type_probes"] = rhs_probe
+    cov["rhs_number_type_disagreements"] = rhs_bad
     cov["numeric_probes"] = len(nums)
     cov["parameter_updates_after_build"] = param_updates
     cov["numeric_undecided"] = len(nund)
